@@ -164,6 +164,46 @@ module.exports = function (repo, loadPrelude) {
         registry[a[1]] = typ;
         return U.strToHex(typ.string);
       }
+      case 'hash': {
+        // mapkey hash <gridtype>: <gridtype> = i s e sl mp fn | a<n>,<t> | st<n>,(N|B|M),<t>,...  (N named, B blank `_`, M embedded field)
+        //   -> <typ.comparable 0|1> <interface key> <struct{k interface{}} key> <[1]interface{} key>   each: key | panic | err:<msg>
+        const toks = a[1].split(',');
+        let seq = 0;
+        const build = () => {
+          const t = toks.shift();
+          if (t === 'i') return G('$Int');
+          if (t === 's') return G('$String');
+          if (t === 'e') return G('$emptyInterface');
+          if (t === 'sl') return G('$sliceType')(G('$Int'));
+          if (t === 'mp') return G('$mapType')(G('$String'), G('$Int'));
+          if (t === 'fn') return G('$funcType')([], [], false);
+          if (t[0] === 'a') { const n = Number(t.slice(1)); return G('$arrayType')(build(), n); }
+          if (t.startsWith('st')) {
+            const n = Number(t.slice(2)); const fields = [];
+            for (let i = 0; i < n; i++) {
+              const k = toks.shift(); const ft = build();
+              if (k === 'B') fields.push({ prop: '_$' + i, name: '_', embedded: false, exported: false, typ: ft, tag: '' });
+              else if (k === 'M') fields.push({ prop: 'E' + i, name: 'E' + i, embedded: true, exported: true, typ: ft, tag: '' });
+              else fields.push({ prop: 'F' + i, name: 'F' + i, embedded: false, exported: true, typ: ft, tag: '' });
+            }
+            return G('$structType')('main', fields);
+          }
+          throw new Error('bad grid type token ' + t);
+        };
+        const typ = build();
+        if (toks.length) throw new Error('grid type too long');
+        const z = typ.zero();
+        const boxed = (typ.wrapped || typ.kind === G('$kindStruct')) ? new typ(z) : z;
+        const E = G('$emptyInterface');
+        const attempt = (f) => {
+          try { f(); return 'key'; }
+          catch (e) { if (U.isRuntimeError(e) && /^hash of unhashable type /.test(e.message)) return 'panic'; return 'err:' + String(e.message).replace(/\s+/g, '_').slice(0, 60); }
+        };
+        const SK = G('$structType')('main', [{ prop: 'k', name: 'k', embedded: false, exported: false, typ: E, tag: '' }]);
+        const AK = G('$arrayType')(E, 1);
+        return (typ.comparable ? '1' : '0') + ' ' + attempt(() => E.keyFor(boxed)) + ' ' +
+          attempt(() => SK.keyFor(new SK.ptr(boxed))) + ' ' + attempt(() => AK.keyFor([boxed]));
+      }
       case 'enum': {
         const arity = Number(a[1]), maxlen = Number(a[2]), shape = a[3];
         const alpha = ['$', '\\', 'a'];
